@@ -779,13 +779,29 @@ func (m *Machine) symItoa(x *Term, signed bool) Str {
 			break
 		}
 	}
+	// The digits are fresh variables d_i in [0,9] with sum d_i*10^k == x (Horner form): multiplication by
+	// constants instead of nd divisions by 10, and parse(format(x)) == x becomes (almost) syntactic.
 	digits := make([]*Term, nd)
-	cur := ux
-	for i := nd - 1; i >= 0; i-- {
-		d := BVBin(OpBVURem, cur, BV(w, 10))
-		digits[i] = BVBin(OpBVAdd, Extract(d, 7, 0), BV(8, '0'))
-		cur = BVBin(OpBVUDiv, cur, BV(w, 10))
+	var known uint64
+	haveVal := false
+	if v, ok := m.path.evalUnder(ux); ok {
+		known, haveVal = v, true
 	}
+	acc := BV(w, 0)
+	for i := 0; i < nd; i++ {
+		d := m.path.NewAux("dg", SBV(8))
+		if haveVal {
+			p := uint64(1)
+			for k := 0; k < nd-1-i; k++ {
+				p *= 10
+			}
+			m.path.model[d.Name] = (known / p) % 10
+		}
+		m.path.assert(BVCmp(OpBVUle, d, BV(8, 9)))
+		digits[i] = BVBin(OpBVAdd, d, BV(8, '0'))
+		acc = BVBin(OpBVAdd, BVBin(OpBVMul, acc, BV(w, 10)), Zext(d, w))
+	}
+	m.path.assert(Eq(acc, ux))
 	out = append(out, digits...)
 	return StrFromTerms(out)
 }
